@@ -56,29 +56,36 @@ def _entry_arms(lib):
         raise AnchorLost("transcoder entry (fn(ser, de) calling deserialize_any) not found")
     err_adt = None
     aggs = []
-    for bi in sorted(entry.reach()):
-        for s in entry.blocks[bi]["stmts"]:
-            if s["k"] == "assign" and s["rv"]["k"] == "aggregate" and s["rv"].get("agg") == "adt":
-                a = lib.adts.get(s["rv"]["adt"])
-                if a and a["crate"] == "xt" and a["kind"] == "enum" and len(a["variants"]) == 2 and a["path"] != src_enum and sorted(len(v_["fields"]) for v_ in a["variants"]) == [1, 2]:
-                    err_adt = s["rv"]["adt"]
-                    aggs.append((bi, s))
+    # the error may be built in the entry itself or in a closure it hands to a combinator (`.map_err(|e| ..)`)
+    bodies = [entry]
+    for x in bodies:
+        for c in lib.closures_of(x):
+            if c not in bodies:
+                bodies.append(c)
+    for body in bodies:
+        for bi in sorted(body.reach()):
+            for s in body.blocks[bi]["stmts"]:
+                if s["k"] == "assign" and s["rv"]["k"] == "aggregate" and s["rv"].get("agg") == "adt":
+                    a = lib.adts.get(s["rv"]["adt"])
+                    if a and a["crate"] == "xt" and a["kind"] == "enum" and len(a["variants"]) == 2 and a["path"] != src_enum and sorted(len(v_["fields"]) for v_ in a["variants"]) == [1, 2]:
+                        err_adt = s["rv"]["adt"]
+                        aggs.append((body, bi, s))
     if not (err_adt and len(aggs) == 2):
         raise AnchorLost("two-variant transcoding error not built in the entry")
     out = []
-    for bi, s in aggs:
+    for body, bi, s in aggs:
         arm = None
-        for sb in entry.reach():
-            sw = entry.blocks[sb]["term"]
+        for sb in body.reach():
+            sw = body.blocks[sb]["term"]
             if sw["k"] != "switch":
                 continue
-            tr = trace(entry, sw["discr"])
+            tr = trace(body, sw["discr"])
             if tr.origin and tr.origin[0] == "call" and (fn_of(tr.origin[2]) or {}).get("impl_self_adt") == st and tr.has("discr"):
                 for var in lib.adts[src_enum]["variants"]:
-                    e = enum_edge(entry, sb, var["idx"])
-                    if e and entry.edge_dominates(e[0], e[1], e[2], bi):
+                    e = enum_edge(body, sb, var["idx"])
+                    if e and body.edge_dominates(e[0], e[1], e[2], bi):
                         arm = var["name"]
-        out.append((bi, s, arm))
+        out.append((body, bi, s, arm))
     return entry, err_adt, out
 
 
@@ -88,8 +95,8 @@ def _roles(lib):
     k = id(lib)
     if k not in _ROLES:
         entry, err_adt, arms = _entry_arms(lib)
-        two = [arm for bi, s_, arm in arms if len(s_["rv"]["ops"]) == 2]
-        one = [arm for bi, s_, arm in arms if len(s_["rv"]["ops"]) == 1]
+        two = [arm for _, bi, s_, arm in arms if len(s_["rv"]["ops"]) == 2]
+        one = [arm for _, bi, s_, arm in arms if len(s_["rv"]["ops"]) == 1]
         if len(two) != 1 or len(one) != 1 or two[0] is None or one[0] is None or two[0] == one[0]:
             raise AnchorLost(f"error-source roles not identifiable from the top-level arms (two-field on {two}, one-field on {one})")
         _ROLES[k] = {"ser": two[0], "de": one[0]}
@@ -269,21 +276,35 @@ def r11_3(ctx):
     entry, err_adt, arms = _entry_arms(lib)
     roles = _roles(lib)
     de_call = [t for _, t in entry.calls() if (fn_of(t) or {}).get("name") == "deserialize_any"][0]
-    for bi, s, arm in arms:
+
+    def from_de_err(body, op, need_err):
+        """`op` is the error of the entry's deserialize_any call: the Err payload of its result, or the
+        parameter of a closure handed to map_err / or_else on that result."""
+        tr = trace(body, op)
+        if tr.origin and tr.origin[0] == "call" and tr.origin[2] is de_call:
+            return (not need_err) or any(x[0] == "downcast" and x[1] == "Err" for x in tr.steps)
+        if body is not entry and tr.origin and tr.origin[0] == "arg" and tr.origin[1] == 2 and all(x[0] == "use" for x in tr.steps):
+            for _, pt in entry.calls():
+                pf = fn_of(pt) or {}
+                if body.id in pf.get("closures", []) and pf.get("def") in ("std::result::Result::<T, E>::map_err", "std::result::Result::<T, E>::or_else") and pt["args"]:
+                    rt = trace(entry, pt["args"][0])
+                    if rt.origin and rt.origin[0] == "call" and rt.origin[2] is de_call and all(x[0] == "use" for x in rt.steps):
+                        return True
+        return False
+
+    for body, bi, s, arm in arms:
         v = s["rv"]["variant"]
         ops = s["rv"]["ops"]
         if len(ops) == 2:
-            s_tr = trace(entry, ops[0], passthrough_extra=("std::option::Option::<T>::unwrap", "std::option::Option::<T>::expect"))
-            d_tr = trace(entry, ops[1])
+            s_tr = trace(body, ops[0], passthrough_extra=("std::option::Option::<T>::unwrap", "std::option::Option::<T>::expect"))
             from_state = bool(s_tr.origin and s_tr.origin[0] == "call" and (fn_of(s_tr.origin[2]) or {}).get("impl_self_adt") == st)
-            from_de = bool(d_tr.origin and d_tr.origin[0] == "call" and d_tr.origin[2] is de_call and any(x[0] == "downcast" and x[1] == "Err" for x in d_tr.steps))
+            from_de = from_de_err(body, ops[1], True)
             ok = arm == roles["ser"] and from_state and from_de
-            ctx.ob(f"entry:{v}", ok, site(entry, bi), f"on the {arm} arm: (captured serializer error, deserializer error)" if ok else f"two-field error built on arm {arm} from state={from_state}, de={from_de}")
+            ctx.ob(f"entry:{v}", ok, site(body, bi), f"on the {arm} arm: (captured serializer error, deserializer error)" if ok else f"two-field error built on arm {arm} from state={from_state}, de={from_de}")
         else:
-            d_tr = trace(entry, ops[0])
-            from_de = bool(d_tr.origin and d_tr.origin[0] == "call" and d_tr.origin[2] is de_call)
+            from_de = from_de_err(body, ops[0], False)
             ok = arm == roles["de"] and from_de
-            ctx.ob(f"entry:{v}", ok, site(entry, bi), f"on the {arm} arm: the deserializer's own error" if ok else f"single-field error built on arm {arm}")
+            ctx.ob(f"entry:{v}", ok, site(body, bi), f"on the {arm} arm: the deserializer's own error" if ok else f"single-field error built on arm {arm}")
     # Display
     disp = [b for b in lib.bodies if b.raw.get("impl_trait") == "std::fmt::Display" and b.raw.get("impl_self_adt") == err_adt]
     ctx.need(len(disp) == 1, "Display impl of the transcoding error not found")
